@@ -431,6 +431,16 @@ class Parser:
                 self.next(); self.next(); c = self.expr()
                 if self.atop(','): raise Unsupported("debug_assert! with a message")
                 self.eat('op', ')'); return ('dbgassert', c)
+            if self.atop('!') and path in (['format'], ['write'], ['matches']) and self.atop('(', 1):
+                # opaque: the tokens are kept unparsed; translating a use of the value is what fails, not parsing the function
+                self.next(); self.next(); d = 1; raw = []
+                while d:
+                    x = self.next()
+                    if x[0] == 'eof': raise Unsupported("unterminated macro")
+                    if x[0] == 'op' and x[1] in ('(', '[', '{'): d += 1
+                    if x[0] == 'op' and x[1] in (')', ']', '}'): d -= 1
+                    if d: raw.append(x[1])
+                return ('macro', path[0], tuple(raw))
             if self.atop('!'): raise Unsupported("macro " + '::'.join(path) + "!")
             if self.atop('{') and not nostruct and path[-1][0].isupper():
                 self.next(); fields = []
